@@ -105,12 +105,15 @@ def per_program(p):
 def plan(tier, seed):
     n = 100 if tier == "quick" else 2000
     depth = 4 if tier == "quick" else 5
-    return [{"seed": seed * 1000 + k, "n": n, "depth": depth} for k in range(16)]
+    shards = [{"seed": seed * 1000 + k, "n": n, "depth": depth, "adversarial": k % 4 == 3} for k in range(16)]
+    # one parameterised generic met twice in one annotation (nested first / bare first)
+    shards += [{"seed": seed * 1000 + 70 + k, "n": n, "depth": 3, "repeated": True} for k in range(2)]
+    return shards
 
 
 def run_shard(shard, col):
     progs.drive_programs(col, seed=shard["seed"], n=shard["n"],
-                         spec_strategy=U.root_specs(max_depth=shard["depth"], mods=2, wide_unions=False),
+                         spec_strategy=U.repeated_generic_specs() if shard.get("repeated") else U.root_specs(max_depth=shard["depth"], mods=3 if shard.get("adversarial") else 2, wide_unions=False, adversarial=bool(shard.get("adversarial"))),
                          per_program=per_program)
 
 
